@@ -833,6 +833,49 @@ func TestSortedMarshal(t *testing.T) {
 	ev.R.Space("id sets x insertion rotations: add all, MarshalCedar -> reload, MarshalJSON -> reload", n)
 }
 
+// TestDocumentSizes: documents of every size 0..70 and around the powers of two up to 1025 policies are loaded,
+// inspected (id policy<k> = k-th statement, with its position), marshalled and reloaded. Size-dependent code paths
+// (batching, pre-sizing, parallel compilation above a threshold) would show here.
+func TestDocumentSizes(t *testing.T) {
+	if !ev.First() {
+		return
+	}
+	var sizes []int
+	for n := 0; n <= 70; n++ {
+		sizes = append(sizes, n)
+	}
+	sizes = append(sizes, 99, 100, 101, 127, 128, 129, 255, 256, 257, 511, 512, 513)
+	if ev.Thorough() {
+		sizes = append(sizes, 1000, 1023, 1024, 1025, 4097)
+	}
+	for _, n := range sizes {
+		pr := &prng{x: uint64(n) * 7919}
+		op := Op{Kind: "load", Name: "sizes.cedar"}
+		var sb strings.Builder
+		for k := 0; k < n; k++ {
+			sb.WriteString(c18doc.Filler(pr.next(12), pr.next, false))
+			pk := pr.next(len(pool))
+			op.Pools = append(op.Pools, pk)
+			op.Starts = append(op.Starts, sb.Len())
+			sb.WriteString(render.Policy(pool[pk], render.Opts{}))
+		}
+		sb.WriteString("\n")
+		op.Doc = sb.String()
+		log := []Op{op, {Kind: "marshal-cedar", Set: 0, Name: "again.cedar", Keep: true}, {Kind: "marshal-json", Set: 0, Keep: true}}
+		c := &Case{Ops: log}
+		ev.R.Case(ir.Hash(c), n >= 2, "document-sizes")
+		if sub, msg := replay(c); sub != "" {
+			if n > 80 {
+				// keep the replay file small: the same construction, truncated description
+				msg = fmt.Sprintf("document of %d policies: %s", n, msg)
+			}
+			ev.R.Violation(sub, c, msg)
+			t.Fatalf("C20/%s: document of %d policies: %s", sub, n, msg)
+		}
+	}
+	ev.R.Space("document sizes 0..70 and around 100 / 128 / 256 / 512 (thorough: 1000 / 1024 / 4097): load, inspect, marshal, reload", len(sizes))
+}
+
 func replay(c *Case) (string, string) {
 	m := newMachine()
 	for i := range c.Ops {
